@@ -407,3 +407,7 @@ R.contract(
     ensures_exc=[("at-most-one-file-written", "len(wl_paths) <= 1")],
     unreachable_ok=["compute_delta = None"],      # handler of the local `from ... import compute_delta`: the module is part of the repository
 )
+
+
+# ---- the delta branch of load_latest_snapshot (region contract, contracts/_c07_load.py)
+from contracts import _c07_load  # noqa: E402,F401
